@@ -422,3 +422,41 @@ fn f10b_seek_fault_before_zip64_probe_surfaces() {
         }
     }
 }
+
+// F12 (C12): a refused compression level surfaces when the extra data is ended; the writer is then closed
+// but still thinks it is writing extra data, and the next call (end_extra_data again, or finish) panicked in
+// get_plain instead of returning an error.
+#[test]
+fn f12_call_after_failed_end_extra_data_does_not_panic() {
+    let mut w = zip::ZipWriter::new(Cursor::new(Vec::new()));
+    let o = zip::write::FileOptions::default()
+        .compression_method(zip::CompressionMethod::Deflated)
+        .compression_level(Some(99));
+    w.start_file_with_extra_data("a", o).unwrap();
+    assert!(w.end_extra_data().is_err(), "level 99 must be refused");
+    // every later call must return (an error), not panic
+    assert!(w.end_extra_data().is_err());
+    assert!(w.finish().is_err());
+    std::mem::forget(w);
+}
+
+// F13 (C12, C13): a refused start_file in append mode must not damage the last existing entry.
+// start_entry closes the "raw" state in finish_file before it can fail; the finish() that follows
+// then treated the last OLD entry as the open one and overwrote its CRC and sizes.
+#[test]
+fn f13_refused_entry_after_append_keeps_old_entries() {
+    let mut w = zip::ZipWriter::new(Cursor::new(Vec::new()));
+    let o = zip::write::FileOptions::default().compression_method(zip::CompressionMethod::Stored);
+    w.start_file("a", o).unwrap();
+    w.write_all(b"old content").unwrap();
+    let base = w.finish().unwrap().into_inner();
+
+    let mut aw = zip::ZipWriter::new_append(Cursor::new(base)).unwrap();
+    assert!(aw.start_file("n".repeat(70000), o).is_err(), "unrepresentable name is refused");
+    let out = aw.finish().expect("finish after a refused entry").into_inner();
+    let mut ar = zip::ZipArchive::new(Cursor::new(out)).expect("readable");
+    assert_eq!(ar.len(), 1);
+    let mut s = String::new();
+    ar.by_name("a").unwrap().read_to_string(&mut s).expect("old entry still reads");
+    assert_eq!(s, "old content");
+}
